@@ -127,7 +127,15 @@ def evaluate(ad, spec, with_grad):
         g = torch.Generator().manual_seed(spec['in_seed'] + 99)
         cots = [torch.randn(o.shape, generator=g, dtype=torch.float64).to(o.dtype) for o in outs]
         live = [(o, c) for o, c in zip(outs, cots) if o.requires_grad]
-        grads = torch.autograd.grad([o for o, c in live], args, [c for o, c in live], allow_unused=True)
+        try:
+            grads = torch.autograd.grad([o for o, c in live], args, [c for o, c in live], allow_unused=True)
+        except inject.InjectedFault:
+            raise
+        except Exception as e:
+            # a backward pass that raises (e.g. reflect extension of a short cotangent) is an
+            # observation like any other: it must raise identically in the fresh process
+            rec['grads'] = {'raised': type(e).__name__}
+            return rec, arrays
         rec['grads'] = [tinfo(gr) if gr is not None else None for gr in grads]
         arrays += [gr.detach().contiguous().numpy() for gr in grads if gr is not None]
     return rec, arrays
